@@ -68,7 +68,7 @@ impl<P> RetryPolicy<P> {
             self.retry_predicate is Some ==> call_ensures(self.retry_predicate->0, (error,), r),   // #asks_the_predicate [C05]
     //@body RetryPolicy::should_retry file=policy
     pub fn next_backoff(&self, attempt: usize) -> (r: Duration)
-        ensures r == backoff_spec(*self.interval_fn, attempt),   // #delay_of_this_attempt_from_the_interval_function [C05]
+        ensures r == backoff_spec(*self.interval_fn, attempt),   // #delay_of_this_attempt_from_the_interval_function [C05,C14]
     //@body RetryPolicy::next_backoff file=policy
 }
 
